@@ -443,4 +443,31 @@ InvListsAgree == ListsApply =>
     /\ PrevList # <<>> => (pinfo.f = 1 /\ PrevList[Len(PrevList)] = <<pinfo.s, pinfo.e>>)
 ExportLists == ListsApply => PrintT(ToJson(<<ParT(par), <<win.s, win.e>>, NextList, PrevList>>))
 
+---------------------------------------------------------------------------
+(* The tag forms <dtml-in ... previous> and <dtml-in ... next>: the window is computed as for   *)
+(* the loop, then the body is rendered once for the neighbouring batch (with the             *)
+(* previous-/next-sequence-* variables set), or the else body when there is none.            *)
+
+PrevForm == IF win.s - 1 > 0
+            THEN LET o == Opt(par.L, par.L, 0, (win.s - 1) + par.overlap, win.z, par.orphan) IN <<1, o.s, o.e>>
+            ELSE <<0, Undef, Undef>>
+NextForm == IF Has(par.L, win.e)
+            THEN LET o == Opt(par.L, par.L, win.e + 1 - par.overlap, 0, win.z, par.orphan) IN <<1, o.s, o.e>>
+            ELSE <<0, Undef, Undef>>
+
+\* clauses over a window w = <<s, e>> and what a form announced, f = <<flag, s, e>>
+F_Prev(p, w, f) == /\ (f[1] = 1) <=> (w[1] > 1)
+                   /\ f[1] = 1 => (f[3] = Min(p.L, w[1] - 1 + p.overlap) /\ 1 <= f[2] /\ f[2] <= f[3])
+F_Next(p, w, f) == /\ (f[1] = 1) <=> (w[2] < p.L)
+                   /\ f[1] = 1 => (f[2] = Max(1, w[2] + 1 - p.overlap) /\ f[2] <= f[3] /\ f[3] <= p.L)
+
+FormsApply == pc = "done" /\ ~empty /\ ~Crashed /\ rows # <<>> /\ Finite /\ NavDir = "none"
+InvPrevForm == FormsApply => F_Prev(par, <<win.s, win.e>>, PrevForm)
+InvNextForm == FormsApply => F_Next(par, <<win.s, win.e>>, NextForm)
+\* the forms announce what the loop announces on its first / last element
+InvFormsAgree == FormsApply =>
+    /\ PrevForm[1] = 1 => (pinfo.f = 1 /\ <<pinfo.s, pinfo.e>> = <<PrevForm[2], PrevForm[3]>>)
+    /\ NextForm[1] = 1 => (ninfo.f = 1 /\ <<ninfo.s, ninfo.e>> = <<NextForm[2], NextForm[3]>>)
+ExportForms == FormsApply => PrintT(ToJson(<<ParT(par), <<win.s, win.e>>, PrevForm, NextForm>>))
+
 =============================================================================
